@@ -42,17 +42,25 @@ pub(crate) fn range_with_prefix<'a>(
         None => namespace.to_vec(),
     };
     let end = match end {
-        Some(e) => concat(namespace, e),
+        Some(e) => Some(concat(namespace, e)),
+        // there is no upper bound when the namespace is empty or consists of 255 only
+        None if namespace.iter().all(|b| *b == 255) => None,
         // end is updating last byte by one
-        None => namespace_upper_bound(namespace),
+        None => Some(namespace_upper_bound(namespace)),
     };
 
     // get iterator from storage
-    let base_iterator = storage.range(Some(&start), Some(&end), order);
+    let base_iterator = storage.range(Some(&start), end.as_deref(), order);
 
     // make a copy for the closure to handle lifetimes safely
     let prefix = namespace.to_vec();
-    let mapped = base_iterator.map(move |(k, v)| (trim(&prefix, &k), v));
+    // keys shorter than a namespace ending with 255 may sort below its upper bound, skip them
+    let mapped = base_iterator
+        .filter({
+            let prefix = prefix.clone();
+            move |(k, _)| k.starts_with(&prefix)
+        })
+        .map(move |(k, v)| (trim(&prefix, &k), v));
     Box::new(mapped)
 }
 
